@@ -1480,3 +1480,72 @@ for _pid in ("C09", "C10"):
     for _f in SPECS[_pid]["families"]:
         if _f["name"] in ("hcobs_enc", "hcobs_dec"):
             _f.setdefault("shards", {}).setdefault("quick", 4)
+
+# ---- track rdrworld: C05 along the codecs' ANCHORED calls (Props/C05R) - the guard half of WorldInv and ArenaInv that Props/C05H left open
+SPECS["C05"]["lean_modules"] += ["Woodpile.Props.C05R"]
+SPECS["C05"]["theorems"] += [
+    "Woodpile.Props.C05R.enc_anchored_arenaInv",
+    "Woodpile.Props.C05R.enc_anchored_exposed_live",
+    "Woodpile.Props.C05R.enc_anchored_run_exposed_live",
+    "Woodpile.Props.C05R.enc_anchored_below_bump",
+    "Woodpile.Props.C05R.dec_anchored_guard",
+    "Woodpile.Props.C05R.dec_anchored_exposed_live",
+    "Woodpile.Props.C05R.dec_anchored_below_bump",
+    "Woodpile.Props.C05R.anchored_no_overlap",
+    "Woodpile.Props.C05R.step_good",
+]
+SPECS["C05"]["level_text"] += (' Props/C05R (track rdrworld): the item C05H left open. Along EVERY encoder / decoder run with ALL input methods '
+    '(encPrefixA / encRunA / decRunA: encode_read / decode_read = read_n into the codec\'s own arena, push of sub-slices of the returned slice, ONE push_anchor; '
+    'any parameters, policy, tuning, reader scripts, drain schedule, verdict) the invariant HInv holds: the guard Guarded (anchors ++ zs) slices, where zs is the '
+    'zero-count anchor the running call will push for the AnchoredSlice it HOLDS (empty between calls), and ArenaInv of the world in which the held slice is '
+    'registered as one more detached slice (one cache per chunk, every slice - the held one included - below the bump pointer and inside the capacity). '
+    'Between calls this gives slice_guarded / exposed_live / below_bump for the codec\'s world (enc_anchored_*, dec_anchored_*; for the ENCODER also the head '
+    'condition, i.e. the full WorldInv of Props/C05: enc_anchored_arenaInv; for the decoder the head condition is false, see C05H, and is not needed for liveness). '
+    'anchored_no_overlap: every run is a chain of micro-steps (HStep: push_copy, push of a caller-buffer range, push of a range of the held slice, register_patch, '
+    'backfill, drains, lend, read_n, push_anchor) and at EVERY micro-step - also in the middle of an anchored call - step_good holds: each slice of the iovec in '
+    'chunk k is guarded by an anchor of the deque or by the held slice\'s anchor, ArenaInv before and after, and the conclusion of C05.no_overlap (one fresh range '
+    'at or above the end of every existing slice of its chunk, the held slice included).')
+# ---- track rdrworld: world-level StreamChunker / StreamReader (Model/StreamWorld.lean): placement of every slice handed out + live set
+SPECS["C05"]["families"] += [
+    dict(name="chunkerw", quick=240, thorough=3200, search=2000, shards=dict(quick=2, thorough=16)),
+    dict(name="readerw", quick=150, thorough=1600, search=1000, shards=dict(quick=6, thorough=16)),
+]
+SPECS["C05"]["lean_modules"] += ["Woodpile.Props.C05S"]
+SPECS["C05"]["theorems"] += [
+    "Woodpile.Props.C05S.pump_is_wrun",
+    "Woodpile.Props.C05S.pump_reachable",
+    "Woodpile.Props.C05S.chunk_slices_live",
+    "Woodpile.Props.C05S.reader_inv",
+    "Woodpile.Props.C05S.reader_inv_new",
+    "Woodpile.Props.C05S.reader_inv_calls",
+    "Woodpile.Props.C05S.record_slices_live",
+    "Woodpile.Props.C05S.record_guarded",
+    "Woodpile.Props.C05S.reader_chunks_live",
+    "Woodpile.Props.C05S.pump_world_agrees",
+    "Woodpile.Props.C05S.chunker_new_rel",
+    "Woodpile.Props.C05S.chunker_world_agrees",
+    "Woodpile.Props.C05S.data_chunk_live",
+    "Woodpile.Props.C05S.reader_next_agrees",
+    "Woodpile.Props.C05S.reader_world_agrees",
+]
+SPECS["C05"]["level_text"] += (' Props/C05S (track rdrworld): StreamChunker chunks and StreamReader records. Model/StreamWorld.lean models pump / '
+    'next_record_bytes on the structural World (the arena is a detached ByteArena or the decoder iovec\'s own; StreamChunker::buf and every Chunk::Data '
+    'handed out are detached AnchoredSlices; the record is the iovec self.iovec; clear per retry turn; the iovec and its arena are dropped on every path '
+    'that drops the Decoder while it owns them - `?`, return Ok(None), finish() failing). pump is a run of iovec-family operations (sTake, readNArena/readNIov '
+    'on the chained reader, sDrop, sSkip, sSplit - pump_is_wrun), so a chunker history stays Reachable and Props/C05 applies as stated; chunk_slices_live: every '
+    'non-empty detached slice after a pump (the chunk just handed out, chunks handed out earlier and still held, the buffered tail) lies in a live chunk held by '
+    'its OWN anchor, inside the capacity and below the bump pointer of any arena still allocating from that chunk. The reader\'s world is not a WOp history '
+    '(decode_anchored); next_record_bytes keeps HInv for every judge / block size / reader script and any number of calls (reader_inv, reader_inv_calls), hence '
+    'record_slices_live (every slice of the iovec after a call lies in a live chunk held by the iovec\'s OWN anchors, inside the capacity, below the bump '
+    'pointer), record_guarded, reader_chunks_live. WHAT bytes are returned stays with C06/C08 (byte-level model); that the world-level model returns the same '
+    'bytes AND places every slice where the real code does is checked by the new correspondence families chunkerw / readerw (same op vocabulary and lines as '
+    'chunker / reader plus at=/R slices= placements through the H1 registry and the live set after every call; held-chunk containment + content oracle): '
+    'the subject of these families. That the world-level model returns the same BYTES as the byte-level model of C06/C08 is PROVED: CHUNKER '
+    '(Proofs/StreamWorldRef) pump_world_agrees / chunker_world_agrees - every history of a new chunker and its caller (pumps with any block sizes on any '
+    'arena, interleaved with the caller dropping chunks; any stream / reader script; any world) returns pump by pump exactly the chunks of Stream.pumpSeq '
+    '(verdicts, offsets, bytes) and leaves the reader where it leaves it; data_chunk_live: the handle of a Data chunk names a non-empty detached slice '
+    'holding those bytes, live, below the bump pointer. READER (Proofs/StreamWorldRd) reader_next_agrees / reader_world_agrees - any number of '
+    'next_record_bytes calls of a new reader, each with its own judge and block size, return call by call exactly what Stream.next returns (Some with the same '
+    'range and the byte-level record = the FLATTENED IOVEC, None, the same I/O error) and leave the reader in the same position; proof: the iovec satisfies '
+    'the single-iovec invariant IovInv and every detached slice is held w.r.t. it (Geo), decode_anchored of a chunk appends exactly the decoder\'s emits '
+    '(decFeed_pushed) and leaves the chunker\'s buffered tail and its bytes alone (FrameOut), pump touches no detached slice but its own (pumpW_only).')
